@@ -325,6 +325,26 @@ class World:
 
     _UpdateAllPartial = _UpdateAllOk
 
+    def _UpdateBadArgs(self, act):
+        name = act["m"]
+        m = self.minerals[name]
+        getL, getx = flow_callables("ss_xz", self.rate)
+        par = dict(M=125, chi=3, asm=[int(m.phase)] if int(m.phase) in (0, 1) else [0], phiOl=10, x=[5, 0])
+        if act["which"] == "velocity_gradient":
+            getL = np.zeros((3, 3))          # an array instead of a callable
+        else:
+            getx = np.zeros(3)
+        m.update_orientations(make_params(par), self.Fexp[name].copy(), getL, (self.t[name], self.t[name] + self.dt, getx))
+
+    def _VoigtOk(self, act):
+        ms = [self.minerals[x] for x in act["ms"]]
+        p = make_params(act["par"])
+        self.voigt_out = None
+        out = self.pydrex.voigt_averages(ms, list(p["phase_assemblage"]), list(p["phase_fractions"]))
+        self.voigt_out = out
+
+    _VoigtRejected = _VoigtOk
+
     def _SavePostfix(self, act):
         self.minerals[act["m"]].save(self.file(act["f"]), postfix=act["pf"])
 
@@ -387,7 +407,7 @@ class World:
             self.pydrex.Mineral.from_file(bad)
 
     # -- trace events (code -> spec)
-    EVKIND = {"UpdateOk": "Update", "UpdateRejected": "Update", "UpdatePhaseAbsent": "Update",
+    EVKIND = {"UpdateOk": "Update", "UpdateRejected": "Update", "UpdatePhaseAbsent": "Update", "VoigtOk": "Voigt", "VoigtRejected": "Voigt",
               "UpdateAllOk": "UpdateAll", "UpdateAllPartial": "UpdateAll"}
 
     def observe(self, name, grew, dstrain):
@@ -414,7 +434,7 @@ class World:
     def event(self, tid, act, err, lens_before):
         a = act["a"]
         ev = dict(tid=tid, ev=self.EVKIND.get(a, a), exc=err)
-        for k in ("m", "ms", "fl", "par", "cb", "f", "pf", "k"):
+        for k in ("m", "ms", "fl", "par", "cb", "f", "pf", "k", "which"):
             if k in act:
                 ev[k] = act[k]
         names = [act["m"]] if "m" in act else list(act.get("ms", []))
@@ -503,13 +523,20 @@ class Comparator:
         a = act["a"]
         # outcome class
         if spec["err"] != err_impl:
-            if a.startswith("Update"):
+            if a.startswith("Voigt"):
+                prop = "C10"
+            elif a.startswith("Update"):
                 prop = "C07"
             elif a in ("SaveCorrupt", "LoadBadName", "SavePostfix", "SaveWholeFile", "Load", "FromFile"):
                 prop = "C17"
             else:
                 prop = "C01"
             self.bad(prop, "outcome", expected=spec["err"], got=err_impl, exc=repr(getattr(world, "last_exc", None))[:200], **ctx)
+        if a == "VoigtOk" and err_impl == "None":
+            out = getattr(world, "voigt_out", None)
+            ok = out is not None and out.shape == (act["steps"], 6, 6) and bool(np.all(np.isfinite(out))) and bool(np.allclose(out, np.transpose(out, (0, 2, 1)), rtol=1e-12, atol=1e-9))
+            if not ok:
+                self.bad("C10", "voigt-result-shape-or-symmetry", shape=None if out is None else list(out.shape), **ctx)
         if a == "SaveCorrupt" and getattr(world, "corrupt_wrote", False):
             self.bad("C17", "rejected-save-wrote", variant=world.corrupt_variant, **ctx)
         for name, c in spec["cfg"].items():
@@ -649,10 +676,11 @@ def validate_trace(events, scratch_dir, timeout=900):
 
 # ---------------------------------------------------------------- shared driver for Layer-B checks
 TRACE_CLAUSES = {
-    "C07": ("update-accepted-where-spec", "update-raised", "failed-update-touched-history", "wrong-error-class", "null-forcing-changed-content"),
+    "C07": ("update-accepted-where-spec", "update-raised", "failed-update-touched-history", "wrong-error-class", "null-forcing-changed-content", "bad-arguments-not-refused", "bad-arguments-touched-history"),
     "C01": ("history-rewritten", "not-one-snapshot-per-update", "snapshot-shape", "snapshot-not-finite", "negative-volume", "volumes-do-not-sum-to-1", "orientation-entry-outside-unit-interval", "orientation-left-handed", "orthonormality-beyond-budget"),
     "C17": ("loaded-state-differs-from-archive", "archive-differs-after-save", "corrupt-save-not-refused", "corrupt-save-wrote", "no-spec-action-LoadBadName"),
     "C08": ("update-all-post-state-differs",),
+    "C10": ("voigt-accepted-where-spec-rejects", "voigt-rejected-where-spec-accepts", "voigt-touched-a-mineral"),
 }
 
 
